@@ -43,10 +43,12 @@ fn observe(o: &Ontology, kind: u8, bg: &[u32], sample: &[u32]) -> V {
 
 /// root HP:1 + `npop` leaves; records of the chosen kind with prescribed (K, k) relative to a sample of size `nsample`
 fn flat_world(rng: &mut Rng, npop: usize, kind: u8) -> (World, Vec<u32>, Vec<u32>, usize) {
-    flat_world_with(rng, npop, kind, None)
+    flat_world_with(rng, npop, kind, None, None)
 }
 
-fn flat_world_with(rng: &mut Rng, npop: usize, kind: u8, half: Option<usize>) -> (World, Vec<u32>, Vec<u32>, usize) {
+/// `sparse = Some(m)`: K = n = m in a population many times larger, k spread over the LOWER half of the support — the
+/// tail probabilities there are tiny (1e-6 .. 1e-30), so an evaluation as 1 - P[X < k] loses them to cancellation
+fn flat_world_with(rng: &mut Rng, npop: usize, kind: u8, half: Option<usize>, sparse: Option<usize>) -> (World, Vec<u32>, Vec<u32>, usize) {
     let leaves: Vec<u32> = {
         let mut s: BTreeSet<u32> = BTreeSet::new();
         let dense = rng.chance(1, 2);
@@ -57,7 +59,7 @@ fn flat_world_with(rng: &mut Rng, npop: usize, kind: u8, half: Option<usize>) ->
         rng.shuffle(&mut v);
         v
     };
-    let nsample = if let Some(h) = half { h } else { match rng.below(6) {
+    let nsample = if let Some(h) = half { h } else if let Some(m) = sparse { m } else { match rng.below(6) {
         0 => 1,
         1 => npop,
         2 => (npop + 1) / 2,
@@ -70,10 +72,10 @@ fn flat_world_with(rng: &mut Rng, npop: usize, kind: u8, half: Option<usize>) ->
     let parents: Vec<(u32, u32)> = leaves.iter().map(|id| (1u32, *id)).collect();
     let mut annots: Vec<(u8, u32, u32, String)> = vec![];
     let mut rec_id = 1u32;
-    let ngroups = if half.is_some() { 1 } else { rng.range(1, 3) };
+    let ngroups = if half.is_some() || sparse.is_some() { 1 } else { rng.range(1, 3) };
     for _ in 0..ngroups {
         // a group of records with the same K and growing k (monotonicity in k), boundary K + n > N over-weighted
-        let big_k = if let Some(h) = half { h } else { match rng.below(5) {
+        let big_k = if let Some(h) = half { h } else if let Some(m) = sparse { m } else { match rng.below(5) {
             0 => npop,
             1 => (npop - nsample).max(1),
             2 => (npop - nsample + 1).min(npop).max(1),
@@ -89,6 +91,14 @@ fn flat_world_with(rng: &mut Rng, npop: usize, kind: u8, half: Option<usize>) ->
         ks.insert(kmax);
         for _ in 0..(if half.is_some() { 1 } else { 3 }) {
             ks.insert(rng.range(kmin as u64, kmax as u64) as usize);
+        }
+        if sparse.is_some() {
+            ks.clear();
+            for k in [1usize, 2, 3, 5, 8, 10, 12, 13, 16, 20] {
+                if k >= kmin && k <= kmax / 2 {
+                    ks.insert(k);
+                }
+            }
         }
         if half.is_some() {
             ks.remove(&kmax);
@@ -136,7 +146,15 @@ pub fn cases(rng: &mut Rng, count: usize, tier: &str) -> Vec<Case> {
             tags.push("flat");
             tags.push("huge");
             tags.push("nt");
-            flat_world_with(rng, npop, kind, Some(npop / 2))
+            flat_world_with(rng, npop, kind, Some(npop / 2), None)
+        } else if out.len() == 1 || (tier == "thorough" && rng.chance(1, 60)) {
+            let npop = rng.range(700, 1300) as usize;
+            let m = rng.range(24, 48) as usize;
+            tags.push("above_table");
+            tags.push("flat");
+            tags.push("sparse_lower_half");
+            tags.push("nt");
+            flat_world_with(rng, npop, kind, None, Some(m))
         } else if rng.chance(1, 3) {
             // general small ontologies (inheritance along is_a, several kinds)
             let mut o = Opts::default();
